@@ -33,6 +33,7 @@ func (k nodeKind) String() string {
 func (k nodeKind) real() bool { return k == kHonest || k == kAmnesia || k == kWatchFlag || k == kOutside }
 
 // trusted reports whether safety monitors apply to the node.
+func (k nodeKind) watch() bool   { return k == kWatchFlag || k == kOutside }
 func (k nodeKind) trusted() bool { return k == kHonest || k == kWatchFlag || k == kOutside }
 
 // VTimer is the injected virtual timer.
@@ -110,6 +111,7 @@ type Node struct {
 	height       uint32
 	tip          H
 	tipTS        uint64
+	earlierLife  bool // see Receive
 	pendingReset bool
 	resetHeld    bool // a slow application: the pending Reset is postponed until nothing else is deliverable
 	incarnation  int
@@ -505,6 +507,14 @@ func (n *Node) Reset() {
 }
 
 func (n *Node) Receive(p *Payload) {
+	if n.d != nil && p.srcNode != n.id && n.isValidator() && int(p.idx) == n.ctx().MyIndex && p.typ != dbft.RecoveryMessageType && p.typ != dbft.RecoveryRequestType {
+		// a payload with the node's own validator index that this instance did not send: the node is a restarted
+		// validator being told what it sent in its earlier life. From here on the send-side monitors (C03 one commit /
+		// response per epoch, C04 evidence held at send time, C07 own pre-commit first) cannot be judged from this
+		// instance's memory alone and are switched off for it, exactly as for amnesia members of closed-world runs;
+		// the certificate, quiescence, timer, hygiene and phase-callback monitors stay on
+		n.earlierLife = true
+	}
 	n.api("OnReceive", p, func() { n.d.OnReceive(p) })
 	n.flush()
 }
